@@ -142,8 +142,23 @@ def run(ctx):
             for t in (1, 2):
                 mcases.append({"w": wire.case("verify_signable", {"signatures": sigs, "signed": P}, PUBHEX[:3], t, True), "meta": {"tag": list(combo)}})
 
+    # OpenPGP mode requested by a true value that is not the bool (verify_delegation lets 1 and 1.0 through): still OpenPGP mode
+    for combo in itertools.product(ents, repeat=2):
+        sigs = {PUBHEX[i]: ents[e](i) for i, e in enumerate(combo)}
+        for flag in (1, 1.0):
+            mcases.append({"w": wire.case("verify_signable", {"signatures": sigs, "signed": P}, PUBHEX[:3], 1, flag), "meta": {"tag": list(combo) + ["gpg=%r" % flag]}})
+    T10 = M.envelope(M.md("root", 3, {"root": M.delegation((0,), 1), "key_mgr": M.delegation((0, 1, 2), 1)}), (0,))
+    for e in ents:
+        for flag in (True, 1, 1.0):
+            U = {"signatures": {PUBHEX[1]: ents[e](1)}, "signed": P}
+            mcases.append({"w": wire.case("verify_delegation", "key_mgr", U, T10, flag), "meta": {"tag": [e, "delegation gpg=%r" % flag]}})
+
     def moracle(c, io):
-        _, env, K, t, gpg = wire.dec(c["w"])
+        d = wire.dec(c["w"])
+        if d[0] == "verify_delegation":
+            env, K, t = d[2], PUBHEX[:3], 1
+        else:
+            _, env, K, t, gpg = d
         n = len(E.counting_keys(env, K, True))
         if io.startswith("O") != (n >= t):
             return "%d entries verify per RFC 4880 framing, threshold %d, implementation says %s (entries in order: %s)" % (n, t, core.impl_class(io), c["meta"]["tag"])
